@@ -1,0 +1,85 @@
+//go:build verif
+
+// Contracts for the cross-chain manager entrance (C21, C22, C18), read by /verif/gocv.
+package cross_chain_manager
+
+//@ spec reqKey(chainID uint64, txHash []byte) KeyT = K3(utils.CrossChainManagerContractAddress, "request", u64le(chainID), txHash)
+//@ spec reqKeyB(chainID uint64, txHash Bytes) KeyT = K3(utils.CrossChainManagerContractAddress, "request", u64le(chainID), txHash)
+
+//@ func PutRequest
+//@   property C22
+//@   mode abstract
+//@   requires native != nil
+//@   modifies Store
+//@   ensures r0 == nil
+//@   ensures Store == upd(old(Store), old(reqKey(chainID, txHash)), Some(rawItem(old(bytes(request)))))
+
+// the outbound request and the cross-state leaf are the same bytes; exactly one of each
+//@ func MakeTransaction
+//@   property C22
+//@   mode abstract
+//@   requires service != nil && params != nil
+//@   modifies Store, service.crossHashes, elems(service.crossHashes)
+//@   ghost var enc Bytes
+//@   ghost var h32 Bytes
+//@   set after "merkleValue.Serialization(sink)" : enc := bytes(sink.buf)
+//@   set after "merkleValue.Serialization(sink)" : h32 := bytes(merkleValue.TxHash)
+//@   callsite[c22-content] Serialization#1 requires recv.FromChainID == fromChainID && recv.MakeTxParam == params && bytes(recv.TxHash) == bytes(service.tx.hash)
+//@   callsite[c22-request-bytes] PutRequest#1 requires arg2 == params.ToChainID && bytes(arg1) == h32 && bytes(arg3) == enc
+//@   callsite[c22-leaf-bytes] PutMerkleVal#1 requires bytes(arg0) == enc
+//@   ensures r0 == nil
+//@   ensures[c22-one-request] Store == upd(old(Store), reqKeyB(old(params.ToChainID), bytes(old(service.tx.hash))), Some(rawItem(enc)))
+//@   ensures[c22-one-leaf] len(service.crossHashes) == old(len(service.crossHashes)) + 1 && service.crossHashes[old(len(service.crossHashes))] == hashLeaf(enc)
+//@   ensures[c22-leaves-kept] forall i int :: 0 <= i && i < old(len(service.crossHashes)) ==> service.crossHashes[i] == old(service.crossHashes[i])
+
+//@ func ImportExTransfer
+//@   property C21, C22
+//@   mode abstract
+//@   requires native != nil && native.tx != nil
+//@   modifies *
+//@   ghost var src uint64
+//@   ghost var srcRouter uint64
+//@   ghost var active bool = false
+//@   ghost var made bool = false
+//@   ghost var direct bool = false
+//@   set after "chainID := params.SourceChainID" : src := chainID
+//@   set after "handler, err := GetChainHandler(sideChain.Router)" : srcRouter := sideChain.Router
+//@   set after "err = utils.CheckRouterStartBlock(sideChain.Router, native.GetHeight())" : active := err == nil
+//@   set after "err = MakeTransaction(native, txParam, chainID)" : made := err == nil
+//@   -- gates on the source chain come before anything is written
+//@   ensures[c21-source-black] old(Store)[common.blackKey(src)] != None ==> r1 != nil && Store == old(Store)
+//@   ensures[c21-source-unregistered] old(Store)[side_chain_manager.scKey("sideChain", src)] == None ==> r1 != nil && Store == old(Store)
+//@   ensures[c21-router-inactive] r1 == nil ==> active
+//@   callsite[c21-proposal-gated] MakeDepositProposal#1 requires Store == old(Store) && Store[common.blackKey(src)] == None && Store[side_chain_manager.scKey("sideChain", src)] != None && active
+//@   -- gates on the destination chain dominate every way of committing the outbound request
+//@   callsite[c21-target-gated] MakeTransaction#1 requires Store[common.blackKey(arg1.ToChainID)] == None && Store[side_chain_manager.scKey("sideChain", arg1.ToChainID)] != None && arg2 == src
+//@   callsite[c21-target-gated-btc] MakeTransaction#2 requires Store[common.blackKey(arg1.ToChainID)] == None && Store[side_chain_manager.scKey("sideChain", arg1.ToChainID)] != None && arg2 == src
+
+// ---- blacklist administration: consensus operator only (C18); exact effect on the gate (C21) --------
+//@ func BlackChain
+//@   property C18, C21
+//@   mode abstract
+//@   requires native != nil && native.tx != nil
+//@   modifies Store
+//@   ghost var wit bool = false
+//@   ghost var gop [20]byte
+//@   set after "operatorAddress, err := node_manager.GetCurConOperator(native)" : gop := operatorAddress
+//@   set after "err = utils.ValidateOwner(native, operatorAddress)" : wit := err == nil
+//@   callsite[c18-operator] ValidateOwner#1 requires arg1 == gop
+//@   ensures[c18-witness] Store != old(Store) ==> wit
+//@   ensures[c21-blacked] r1 == nil ==> Store[common.blackKey(params.ChainID)] != None
+//@   ensures[c21-only-that-chain] forall c uint64 :: c != params.ChainID ==> Store[common.blackKey(c)] == old(Store)[common.blackKey(c)]
+
+//@ func WhiteChain
+//@   property C18, C21
+//@   mode abstract
+//@   requires native != nil && native.tx != nil
+//@   modifies Store
+//@   ghost var wit bool = false
+//@   ghost var gop [20]byte
+//@   set after "operatorAddress, err := node_manager.GetCurConOperator(native)" : gop := operatorAddress
+//@   set after "err = utils.ValidateOwner(native, operatorAddress)" : wit := err == nil
+//@   callsite[c18-operator] ValidateOwner#1 requires arg1 == gop
+//@   ensures[c18-witness] Store != old(Store) ==> wit
+//@   ensures[c21-restored] r1 == nil ==> Store[common.blackKey(params.ChainID)] == None
+//@   ensures[c21-only-that-chain] forall c uint64 :: c != params.ChainID ==> Store[common.blackKey(c)] == old(Store)[common.blackKey(c)]
